@@ -786,3 +786,39 @@ def handlers_unchanged(ck, rels, rule='EXC-handlers'):
                   ('' if not (extra or missing) else ' -- which errors this function absorbs (and what it does then) changed'),
                   key='{}|{}|{}'.format(rule, rel, qual))
     ck.extra['handlers_compared'] = n
+
+
+# ----------------------------------------------------------------------------------------------------------------------
+# ALIAS-source: once a function has made a copy of an object to work on, it does not go on editing the original
+def copy_source_untouched(ck, rels, rule='ALIAS-source'):
+    n = 0
+    for rel in rels:
+        module = ck.index.mod(rel)
+        for qual, fn in module.functions.items():
+            copies = {}
+            for st in walk_local(fn):
+                if isinstance(st, ast.Assign) and isinstance(st.targets[0], ast.Name) and isinstance(st.value, ast.Call):
+                    src = None
+                    if call_attr(st.value) in ('copy', 'deepcopy') and isinstance(st.value.func, ast.Attribute) and not st.value.args:
+                        src = st.value.func.value
+                    elif call_name(st.value) in ('copy.copy', 'copy.deepcopy') and st.value.args:
+                        src = st.value.args[0]
+                    if isinstance(src, ast.Name) and src.id != st.targets[0].id:
+                        copies[src.id] = (st.targets[0].id, st.lineno)
+            for srcname, (cp, line) in copies.items():
+                writes = []
+                for node in walk_local(fn):
+                    tgt = None
+                    if isinstance(node, (ast.Subscript, ast.Attribute)) and isinstance(node.ctx, (ast.Store, ast.Del)):
+                        tgt = node
+                    elif isinstance(node, ast.Call) and isinstance(node.func, ast.Attribute) and node.func.attr in flow.MUTATOR_METHODS | {'add_node', 'add_edge', 'remove_node',
+                                                                                                                                  'remove_nodes_from', 'add_interaction', 'remove_interaction', 'merge_molecule', 'add_nodes_from', 'add_edges_from'}:
+                        tgt = node.func.value
+                    if tgt is not None and base_name(tgt) == srcname and node.lineno > line:
+                        writes.append('{}:{}'.format(node.lineno, u(node)[:50]))
+                n += 1
+                ck.ob(rule, module.loc(fn), not writes, '{}: `{}` is a copy of `{}`; after taking it the function {}'.format(
+                    qual, cp, srcname, 'edits only the copy' if not writes else 'still edits the original ({})'.format('; '.join(writes[:3]))),
+                    key='{}|{}|{}|{}'.format(rule, rel, qual, srcname))
+    ck.extra['copy_sites'] = n
+    return n
